@@ -1,6 +1,6 @@
 """Stand-alone reproductions for the C04 findings (plain dulwich calls, no harness).
 
-    /venv/bin/python /verif/findings_inbox/C04_repro.py [F1 F2 F3 F6 F7 F8 ...]      (default: all)
+    /venv/bin/python /verif/findings_inbox/C04_repro.py [F1 F2 F3 F6 F7 F8 F9]      (default: all)
 
 Every reproduction prints what it observes; F1 is run under a 5 s alarm because it does not end.
 """
@@ -192,6 +192,33 @@ def F6():
                 flip, len(good), type(e).__name__, e, (_vmpeak() - before) >> 10))
 
 
+def F9():
+    """EWAH run-length bomb: a 76-byte .bitmap expands, bit by bit, into a Python set of 2**24 (or 2**32) ints."""
+    import resource
+    import time
+
+    from dulwich.bitmap import read_bitmap
+
+    root, base = _small_pair()
+    pk = Pack(base, object_format=OF)
+
+    def ewah(bit_count, words):
+        return struct.pack(">II", bit_count, len(words)) + b"".join(struct.pack(">Q", w) for w in words) + struct.pack(">I", 0)
+
+    run_words = 1 << 18  # x 64 = 2**24 bits set
+    data = b"BITM" + struct.pack(">HHI", 1, 1, 0) + pk.get_stored_checksum() + ewah(1 << 24, [1 | (run_words << 1)]) + ewah(0, []) * 3
+    with open(base + ".bitmap", "wb") as f:
+        f.write(data)
+    resource.setrlimit(resource.RLIMIT_AS, (4 << 30, 4 << 30))
+    before, t = _vmpeak(), time.process_time()
+    try:
+        bm = read_bitmap(base + ".bitmap", pack_index=pk.index)
+        print("F9: %d-byte bitmap of a %d-object pack read in %.1f s CPU; commit bitmap has %d bits; peak address space +%d MiB" % (
+            len(data), len(pk), time.process_time() - t, len(bm.commit_bitmap), (_vmpeak() - before) >> 10))
+    except Exception as e:
+        print("F9: read_bitmap raised %s: %s   (fixed)" % (type(e).__name__, e))
+
+
 def F7():
     """commit-graph reader: one damaged byte in a chunk offset -> MemoryError."""
     from dulwich.commit_graph import read_commit_graph
@@ -235,7 +262,7 @@ def F8():
 
 
 if __name__ == "__main__":
-    which = sys.argv[1:] or ["F1", "F2", "F3", "F6", "F7", "F8"]
+    which = sys.argv[1:] or ["F1", "F2", "F3", "F6", "F7", "F8", "F9"]
     try:
         for w in which:
             globals()[w]()
